@@ -328,6 +328,15 @@ func installBuiltins(it *Interp) {
 	it.def("panic-err!", func(it *Interp, a []*canon.Node) (*canon.Node, *Err) {
 		return nil, &Err{Class: BuiltinErr, Sentinel: "S1"}
 	})
+	it.def("raw-panic-runtime!", func(it *Interp, a []*canon.Node) (*canon.Node, *Err) {
+		return nil, &Err{Class: BuiltinErr}
+	})
+	it.def("raw-panic-err!", func(it *Interp, a []*canon.Node) (*canon.Node, *Err) {
+		return nil, &Err{Class: BuiltinErr, Sentinel: "S1"}
+	})
+	it.def("raw-fail!", func(it *Interp, a []*canon.Node) (*canon.Node, *Err) {
+		return nil, &Err{Class: BuiltinErr, Sentinel: "S1"}
+	})
 	it.def("panic-val!", func(it *Interp, a []*canon.Node) (*canon.Node, *Err) {
 		if len(a) != 1 {
 			return nil, berr("arity")
